@@ -189,9 +189,10 @@ def solve_sat(
 
     def unassign_to(level):
         nonlocal prop_head
+        # Keep everything assigned up to and including `level`: unwind to the start of level + 1
+        target = trail_lim[level] if level < len(trail_lim) else len(trail)
         while len(trail_lim) > level:
             trail_lim.pop()
-        target = trail_lim[-1] if trail_lim else 0
         while len(trail) > target:
             var = trail.pop()
             phase[var] = vals[var] == 1
